@@ -130,8 +130,18 @@ def record_direct(sc):
     r = elfi.Rejection(tm.model["d"], batch_size=sc["bs"], output_names=["S1"], max_parallel_batches=sc.get("maxpar", 1), seed=1)
     tr = base_trace(sc)
     idT = lambda v: decode_id(v, 0.0, 1024.0)   # noqa: E731   parameters are id/1024 (exact)
-    r.set_objective(sc["n"], **objective_kwargs(sc))
     bs = sc["bs"]
+    for k, pv in enumerate(sc.get("prev", ())):
+        # earlier runs on the SAME sampler object (their draws carry ids from another range): a run returns draws of its own
+        r.set_objective(pv["n"], **objective_kwargs(pv))
+        for bi, ds in enumerate(pv["batches"]):
+            if r.finished:
+                break
+            ids = 500000 + k * 10000 + np.arange(bi * bs, (bi + 1) * bs)
+            r.update(dict(d=np.array([decode(x) for x in ds], dtype=float), S1=ids + 10000.0, t1=ids / 1024.0), bi)
+        if r.finished and pv.get("extract", True):
+            r.extract_result()
+    r.set_objective(sc["n"], **objective_kwargs(sc))
     cons = {}
     for bi, ds in enumerate(sc["batches"]):
         if r.finished:
@@ -167,6 +177,10 @@ def record_e2e(sc):
         rows = batch_rows(batch, idT)
         cons.update({x[0]: x[2] for x in rows})
         tr["events"].append(dict(ev="update", rows=rows, obs=project(r, idT, cons)))
+    r._rec = lambda batch: None
+    for pv in sc.get("prev", ()):       # earlier sample() calls on the same sampler object
+        r.sample(pv["n"], bar=False, **objective_kwargs(pv))
+    tm.calls.clear()
     r._rec = rec
     res = r.sample(sc["n"], bar=False, **objective_kwargs(sc))
     tr["events"].append(result_event(res, idT))
@@ -245,6 +259,17 @@ def scenarios(ctx):
         sc["batches"] = batches
         if rnd.random() < 0.3:
             sc["peek_after"] = sorted(rnd.sample(range(len(batches)), min(len(batches), rnd.randint(1, 2))))
+        if rnd.random() < 0.25:     # the sampler object was used before (other n_samples / objective)
+            pn = rnd.choice([n, n, rnd.randint(1, 6)])
+            pmode = rnd.choice(["nsim", "thr"])
+            pv = dict(n=pn, mode=pmode, extract=rnd.random() < 0.7)
+            if pmode == "nsim":
+                pv["n_sim"] = pn + rnd.randint(0, 2 * bs)
+                pv["batches"] = [[rnd.randint(0, top) for _r in range(bs)] for _b in range(-(-pv["n_sim"] // bs))]
+            else:
+                pv["thr"] = top
+                pv["batches"] = [[rnd.randint(0, top) for _r in range(bs)] for _b in range(pn + 2)]
+            sc["prev"] = [pv]
         out.append(sc)
     # end to end through the engine
     n_e2e = 150 if ctx.quick else 1500
@@ -265,6 +290,11 @@ def scenarios(ctx):
         else:
             finite = [v for v in table if not isinstance(v, str)]
             sc["thr"] = min(finite) + rnd.randint(0, 2)     # at least one acceptable value in every table cycle
+        if rnd.random() < 0.25:     # sample() was called before on the same object
+            finite = [v for v in table if not isinstance(v, str)]
+            pn = rnd.choice([n, rnd.randint(1, 5)])
+            sc["prev"] = [rnd.choice([dict(n=pn, mode="nsim", n_sim=pn + rnd.randint(0, 2 * bs)), dict(n=pn, mode="thr", thr=max(finite)),
+                                      dict(n=pn, mode="quantile", q=[1, 2])])]
         out.append(sc)
     return out, n_ex
 
@@ -307,7 +337,7 @@ def check_scenarios(ctx, scs):
         cons = consumed_draws(tr)
         ds = [d for (_i, d) in cons]
         nontrivial = len(set(ds)) < len(ds) or any(d >= INF_CODE for d in ds)      # ties or non-finite present
-        key = (sc["kind"], sc["mode"], sc["bs"], sc["n"], tuple(ds), sc.get("thr"), sc.get("n_sim"), tuple(sc.get("q") or ()))
+        key = (sc["kind"], sc["mode"], sc["bs"], sc["n"], tuple(ds), sc.get("thr"), sc.get("n_sim"), tuple(sc.get("q") or ()), str(sc.get("prev", "")))
         ctx.case(key, nontrivial=nontrivial)
         ctx.trace_events += len(tr["events"])
         if v["verdict"] != "ok":
@@ -326,7 +356,8 @@ def run(ctx):
     ctx.rule = ("direct: set_objective/update/extract_result with id-carrying batches - every batch sequence over {0,1,2,inf,nan} for "
                 "the smallest (batch_size, n_samples) and seeded random sequences for sizes up to 5x6 in all three objective forms "
                 "(threshold | quantile as dyadic rational | n_sim, incl. batch_size not dividing n_sim); e2e: Rejection.sample through "
-                "the engine on T1 models (scalar and vector summaries).  Non-trivial = the consumed draws contain ties or inf/nan.")
+                "the engine on T1 models (scalar and vector summaries); a quarter of the random runs on a sampler object that "
+                "already completed another run (other n_samples / objective).  Non-trivial = the consumed draws contain ties or inf/nan.")
     ctx.clauses_decided = ["a: n best eligible draws (ties free)", "b: ascending", "c: row consistency over all output columns",
                            "d: threshold = largest returned", "e: n_sim = batch_size x consumed", "f: ceil(budget/batch_size) batches"]
     ctx.assumptions.append("quantiles are dyadic rationals so that ceil(n_samples/quantile) is exact in floats")
